@@ -71,6 +71,86 @@ def resolve_local(func, expr):
     return expr
 
 
+def enclosing_iterations(func_node, node):
+    """the iterations a node sits in, outermost first, whether written as `for` statements or as comprehension
+    generators: [(target ast, iterable ast, [filter asts], carrier)] - carrier is the For statement or the
+    comprehension"""
+    path = []
+
+    def visit(n, stack):
+        if n is node:
+            path.extend(stack)
+            return True
+        if isinstance(n, (ast.For, ast.AsyncFor)):
+            if visit(n.target, stack) or visit(n.iter, stack):
+                return True
+            inner = stack + [(n.target, n.iter, [], n)]
+            for c in n.body:
+                if visit(c, inner):
+                    return True
+            for c in n.orelse:
+                if visit(c, stack):
+                    return True
+            return False
+        if isinstance(n, (ast.ListComp, ast.SetComp, ast.GeneratorExp, ast.DictComp)):
+            cur = list(stack)
+            for g in n.generators:
+                if visit(g.iter, cur):
+                    return True
+                cur = cur + [(g.target, g.iter, list(g.ifs), n)]
+                for c in g.ifs:
+                    if visit(c, cur):
+                        return True
+            elts = [n.key, n.value] if isinstance(n, ast.DictComp) else [n.elt]
+            for e in elts:
+                if visit(e, cur):
+                    return True
+            return False
+        for c in ast.iter_child_nodes(n):
+            if visit(c, stack):
+                return True
+        return False
+
+    for st in func_node.body:
+        if visit(st, []):
+            break
+    return path
+
+
+def counted(expr):
+    """`len([.. for v in IT if C..])`, `sum(1 for v in IT if C..)`, `sum([1 for ..])`: (target text, iterable
+    text, [condition texts]); None for anything else"""
+    comp = None
+    if isinstance(expr, ast.Call) and isinstance(expr.func, ast.Name) and len(expr.args) == 1 and not expr.keywords:
+        a = expr.args[0]
+        if expr.func.id == "len" and isinstance(a, ast.ListComp):
+            comp = a
+        elif expr.func.id == "sum" and isinstance(a, (ast.GeneratorExp, ast.ListComp)) and \
+                isinstance(a.elt, ast.Constant) and a.elt.value == 1:
+            comp = a
+    if comp is None or len(comp.generators) != 1:
+        return None
+    g = comp.generators[0]
+    conds = []
+    for c in g.ifs:
+        conds += [utext(v) for v in c.values] if isinstance(c, ast.BoolOp) and isinstance(c.op, ast.And) else [utext(c)]
+    return utext(g.target), utext(g.iter), conds
+
+
+def key_removals(func_node, container):
+    """statements / calls that remove one key from the mapping `container` (canonical text):
+    `del C[K]`, `C.pop(K)`, `C.pop(K, default)`  ->  [(ast node, key text)]"""
+    out = []
+    for s in walk_nodes(func_node.body, ast.Delete):
+        for t in s.targets:
+            if isinstance(t, ast.Subscript) and utext(t.value) == container:
+                out.append((s, utext(t.slice)))
+    for c in walk_calls(func_node.body):
+        if isinstance(c.func, ast.Attribute) and c.func.attr == "pop" and utext(c.func.value) == container and c.args:
+            out.append((c, utext(c.args[0])))
+    return out
+
+
 def guard_pairs(cfg, nid, blocked_edges=()):
     """{(canonical positive atom text, polarity)} guarding a node"""
     return {(utext(g.exprs[0]), pol) for g, pol in cfg.guards(nid, blocked_edges)}
